@@ -269,7 +269,8 @@ Inductive sqlcond :=
 | CArrLen (c : acol) (n : nat)                      (* jsonb_array_length(col) = n *)
 | CArrAt (c : acol) (i : nat) (s : string)          (* col @@ ('$[i] == "s"')::jsonpath *)
 | CObjContains (c : ocol) (o : jobj)                (* col @> '[{"0":"a","2":null}]' *)
-| CBalSub (asset : option string) (o : cmp) (v : Z) (* (SELECT balance <op> v FROM (SELECT … [AND asset = 'A']) balance) *)
+| CBalSub (asset : option string) (o : cmp) (v : Z) (* Some A: (SELECT balance <op> v FROM (SELECT … AND asset = 'A') balance);
+                                                       None: exists (SELECT 1 FROM (SELECT …) balance WHERE (balance <op> v)) *)
 | CAnd (paren : bool) (l : list sqlcond)            (* paren: "(a) and (b)"  /  raw: "a and b" *)
 | COr (paren : bool) (l : list sqlcond)
 | CNot (c : sqlcond).
@@ -339,11 +340,10 @@ Fixpoint flt_eval (c : sqlcond) (r : frow) : option tri :=
   | CArrLen col n => on_col (acol_get r col) (fun a => Nat.eqb (List.length a) n)
   | CArrAt col i s => on_col (acol_get r col) (fun a => match nth_error a i with Some x => String.eqb x s | None => false end)
   | CObjContains col o => on_col (ocol_get r col) (existsb (obj_contains o))
-  | CBalSub asset o v =>
-    let rows := match asset with
-                | Some a => List.filter (fun ab => String.eqb (fst ab) a) (c_sub_balances r)
-                | None => c_sub_balances r end in
-    match rows with
+  | CBalSub None o v =>           (* exists (select 1 from (…all assets…) balance where balance <op> v): never NULL, never fails *)
+    Some (tri_of_bool (existsb (fun ab => zcmp o (snd ab) v) (c_sub_balances r)))
+  | CBalSub (Some a) o v =>       (* scalar sub-select over the rows of asset a *)
+    match List.filter (fun ab => String.eqb (fst ab) a) (c_sub_balances r) with
     | [] => Some TNull
     | [ab] => Some (tri_of_bool (zcmp o (snd ab) v))
     | _ => None
